@@ -1258,6 +1258,19 @@ def schema_contracts(specs):
                                all(isinstance(o, (ast.In, ast.NotIn)) for o in p_.ops))
                         if not ok_:
                             shared.append('%s: %s' % (fname_, ast.unparse(p_) if p_ is not None else n.id))
+        # every position the emitted code announces (`__token = N`) has an entry in the token table:
+        # the function-level handler reads __tokens[__token] before re-raising
+        missing_tok = []
+        for fname_, fdef in em.functions.items():
+            for n in ast.walk(fdef):
+                if isinstance(n, ast.Assign) and len(n.targets) == 1 and isinstance(n.targets[0], ast.Name) \
+                        and n.targets[0].id == '__token' and isinstance(n.value, ast.Constant) \
+                        and isinstance(n.value.value, int) and n.value.value not in em.tokens:
+                    missing_tok.append('%s: __token = %d' % (fname_, n.value.value))
+        static.append(('%s.token_table.complete' % s['id'], not missing_tok,
+                       'every source position the emitted code announces has an entry in the token table',
+                       {'template': s['text'], 'announced_without_entry': missing_tok,
+                        'table_keys': sorted(em.tokens)}))
         # slot protocol: the filler of a slot is taken (popped) by the ONE function whose source
         # contains the define-slot; any other function popping it would throw the caller's filler away
         takers = {}
